@@ -7,7 +7,8 @@ pub struct RotState {
     rot: Vec<hrot::RotationState>,
     cores: Vec<hcore::CoreBox>,
     msgs: Vec<(usize, Vec<u8>)>,       // (sender, bytes)
-    pubkeys: Vec<Vec<u8>>,             // display numbering of ephemeral public keys by first appearance
+    pubkeys: Vec<Vec<u8>>,
+    keymat: Vec<Vec<u8>>,              // rotated-in key material, numbered by first installation (either side)
     send_id: [u64; 2],
     mark_idx: usize,
     next_fresh: [usize; 2],
@@ -15,7 +16,7 @@ pub struct RotState {
 
 impl RotState {
     pub fn new() -> Self {
-        RotState { algo: None, rot: vec![], cores: vec![], msgs: vec![], pubkeys: vec![], send_id: [0, 0], mark_idx: 0, next_fresh: [0, 0] }
+        RotState { algo: None, rot: vec![], cores: vec![], msgs: vec![], pubkeys: vec![], keymat: vec![], send_id: [0, 0], mark_idx: 0, next_fresh: [0, 0] }
     }
 
     fn kid(&mut self, k: &[u8]) -> String {
@@ -47,7 +48,15 @@ impl RotState {
                 if rk.use_for_sending {
                     self.send_id[side] = rk.id;
                 }
-                format!("{}:{}", rk.id, rk.use_for_sending as u8)
+                let km = rk.key[..algo.key_len()].to_vec();
+                let kn = match self.keymat.iter().position(|x| *x == km) {
+                    Some(i) => i,
+                    None => {
+                        self.keymat.push(km);
+                        self.keymat.len() - 1
+                    }
+                };
+                format!("{}:{}:k{}", rk.id, rk.use_for_sending as u8, kn)
             }
         }
     }
